@@ -323,8 +323,8 @@ impl<R: Round> Context<R> {
             let low_prec = if ldigits >= rnd_precision {
                 2
             } else {
-                (rnd_precision - ldigits) + 1
-            }; // low_prec >= 2
+                (rnd_precision - ldigits) + 2
+            }; // the substitute stays at or below 1/B^2 of the last digit after the result is expanded
             low = (rhs_sign * rhs.significand.signum(), low_prec);
             (lhs.significand, lhs.exponent)
         } else if self.is_limited() && ldigits >= self.precision {
@@ -414,7 +414,7 @@ impl<R: Round> Context<R> {
             let low_prec = if rdigits >= rnd_precision {
                 2
             } else {
-                (rnd_precision - rdigits) + 1
+                (rnd_precision - rdigits) + 2
             };
             low = (lhs.significand.signum(), low_prec);
             (rhs_sign * rhs.significand.clone(), rhs.exponent)
